@@ -26,6 +26,7 @@ from mc import impl
 from mc.harness import ShardResult
 from mc.harness import chunks
 from mc.harness import h64
+from mc.vloop import run_solo
 
 ID = "C04"
 LEVEL = "exploration"
@@ -90,6 +91,7 @@ SINKS = [
     "{% assign a = @ %}{% with p: a %}{{ p }}{% endwith %}",
     "{% assign a = @ %}{% translate x: a, y: v %}Hello {{ x }} and {{ y }}{% plural %}Hellos {{ x }}{% endtranslate %}",
     "{% assign a = @ %}{{ 'Hi %(x)s' | t: x: a }}{{ 'Hi %(x)s' | gettext: x: a }}{{ a | t }}{{ a | gettext }}{{ 'one' | ngettext: a, 2 }}{{ a | pgettext: a }}",
+    "{% assign a = @ %}{{ 'one' | t: plural: a, count: 2 }}{{ 'one' | t: a, plural: a, count: 3 }}{{ 'one' | t: plural: a, count: 1 }}{{ 'one' | npgettext: a, a, 2 }}{{ a | ngettext: a, 1 }}{{ 'one %(count)s' | t: plural: 'many %(count)s', count: a }}",
     "{% assign a = @ %}{% for i in a %}{{ i }}{{ forloop.index }}{% endfor %}{% for i in v %}{{ i }}{% endfor %}",
     "{% assign a = @ %}{% case a %}{% when a %}{{ a }}{% else %}{{ a }}{% endcase %}",
     "{% assign a = @ %}{% if a %}{{ a }}{% endif %}{{ a if a else a }}{{ 'lit' if false else a | append: a || prepend: a }}",
@@ -132,7 +134,7 @@ def leak(rendered: str, sink: str) -> str | None:
     return None
 
 
-def check_expr(expr: str, sink: str, form: str, env_name: str, res: ShardResult | None) -> list[tuple[str, Any, Any]]:
+def check_expr(expr: str, sink: str, form: str, env_name: str, res: ShardResult | None, mode: str = "sync") -> list[tuple[str, Any, Any]]:
     out: list[tuple[str, Any, Any]] = []
     if "tablerow" in sink and env_name != "shopify":
         return out
@@ -145,7 +147,13 @@ def check_expr(expr: str, sink: str, form: str, env_name: str, res: ShardResult 
     except Exception:  # noqa: BLE001
         return out
     try:
-        rendered = t.render(v=FORMS[form])
+        if mode == "async":
+            kind, val = run_solo(t.render_async(v=FORMS[form]))
+            if kind != "ok":
+                raise val
+            rendered = val
+        else:
+            rendered = t.render(v=FORMS[form])
     except LiquidError:
         if res is not None:
             res.evaluations += 1
@@ -157,12 +165,12 @@ def check_expr(expr: str, sink: str, form: str, env_name: str, res: ShardResult 
     if res is not None:
         res.evaluations += 1
         if "zz" in rendered or "q a=" in rendered:
-            res.nontrivial.add(h64([src, form, env_name]))
+            res.nontrivial.add(h64([src, form, env_name, mode]))
         res.outcomes.add(h64([bool(rendered)]))
     l = leak(rendered, sink)
     if l:
         fs = re.findall(r"\|\s*([a-z_0-9]+)", expr)
-        out.append((f"C04:unescaped-data-in-output:{'+'.join(fs) or 'no-filter'}:{_sinkname(sink)}", {"source": src, "form": form, "env": env_name}, l))
+        out.append((f"C04:unescaped-data-in-output:{'+'.join(fs) or 'no-filter'}:{_sinkname(sink)}", {"source": src, "form": form, "env": env_name, "mode": mode}, l))
     return out
 
 
@@ -235,11 +243,13 @@ def run_shard(shard) -> ShardResult:
         nfilters = expr.count("|")
         # every sink x every payload form for short chains; the output sink x the decodable forms for long ones
         if nfilters <= 1:
-            combos = [(s, f, en) for s in SINKS for f in forms for en in ("shopify",)] + [(SINKS[0], f, "default") for f in forms]
+            combos = [(s, f, en, "sync") for s in SINKS for f in forms for en in ("shopify",)] + [(SINKS[0], f, "default", "sync") for f in forms]
+            # the asynchronous twins of every sink (each node has a separate render_to_output_async)
+            combos += [(s, f, "shopify", "async") for s in SINKS for f in (("plain", "list", "hash-value") if nfilters == 0 else ("plain",))]
         else:
-            combos = [(SINKS[0], f, "shopify") for f in forms] + [(s, "plain", "shopify") for s in (SINKS[3], SINKS[7], SINKS[12])]
-        for sink, form, en in combos:
-            for sig, case, obs in check_expr(expr, sink, form, en, res):
+            combos = [(SINKS[0], f, "shopify", "sync") for f in forms] + [(s, "plain", "shopify", "sync") for s in (SINKS[3], SINKS[7], SINKS[12])]
+        for sink, form, en, mode in combos:
+            for sig, case, obs in check_expr(expr, sink, form, en, res, mode):
                 res.violation(sig, {"tier": tier, "expr": expr, "sink": sink, **case}, "no unescaped < > ' \" & from data", obs, repro=_repro(case))
     if lo % 9 == 0:
         res.samples.append({"expr": sp["exprs"][lo], "sink": SINKS[(lo // 9) % len(SINKS)], "payload": P})
@@ -250,12 +260,13 @@ def _repro(case: dict[str, Any]) -> str:
     return (
         "# stand-alone reproduction (C04)\nfrom liquid2 import DictLoader\nfrom liquid2.shopify import Environment\n"
         f"env = Environment(auto_escape=True, loader=DictLoader({TEMPLATES!r}))\n"
-        f"print(env.from_string({case['source']!r}).render(v={FORMS[case['form']]!r}))\n"
+        + (f"import asyncio\nprint(asyncio.run(env.from_string({case['source']!r}).render_async(v={FORMS[case['form']]!r})))\n"
+           if case.get("mode") == "async" else f"print(env.from_string({case['source']!r}).render(v={FORMS[case['form']]!r}))\n")
     )
 
 
 def replay(case: dict[str, Any]) -> list[dict[str, Any]]:
     res = ShardResult()
-    for sig, c, obs in check_expr(case["expr"], case["sink"], case["form"], case["env"], None):
+    for sig, c, obs in check_expr(case["expr"], case["sink"], case["form"], case["env"], None, case.get("mode", "sync")):
         res.violation(sig, case, "no unescaped < > ' \" & from data", obs)
     return res.violations
